@@ -92,9 +92,60 @@ LEXICONS = {
         'kw': ['KEY', 'NIL'], 'syn': ['LTR', 'DGT'],
         'kwsyn': {'KEY': 'LTR', 'NIL': 'DGT'},
     },
+    # ANOTHER token kind carries exactly the text of a keyword (family 'kwother'): a keyword entry is keyed by
+    # (token name, value), therefore a token of a different kind with the same value keeps its own name.
+    # Quoted strings whose named group excludes the quotes (the constructor's own example
+    # "(?P<DQ_STRING>[^"]*)"), both quote styles renamed to STR, and '$name' variables, next to the keywords
+    # ('WORD','if') -> IF, ('WORD','then') -> THEN: "if" is a STR with value 'if', $if a VAR with value 'if'.
+    # a = the keyword, b = the string, c = the variable.
+    'kwother1': {
+        'tokenizer': r'(?P<SPACE>\s+)|(?P<WORD>[a-z_]+)|"(?P<DQ>[^"]*)"|' + r"'(?P<SQ>[^']*)'"
+                     + r'|\$(?P<VAR>[a-z_]+)|(?P<NUM>[0-9]+)',
+        'kwargs': {'synonyms': {'DQ': 'STR', 'SQ': 'STR'},
+                   'keywords': [['WORD', 'if', 'IF'], ['WORD', 'then', 'THEN']]},
+        'terms': [('IF', ['if']),
+                  ('STR', [['"if"', 'if'], ["'if'", 'if'], ['"then"', 'then'], ['"s"', 's'], ["'a b'", 'a b'],
+                           ['"iffy"', 'iffy'], ['""', '']]),
+                  ('VAR', [['$if', 'if'], ['$x', 'x'], ['$then', 'then']])],
+        'seps': [' ', '\n', '  ', '\t', ' \n '],
+        'glue': False,
+        'kw': ['IF', 'THEN'], 'syn': ['STR'],
+        'kwother': True,
+    },
+    # single-character tokens that may be glued together: a letter, an escaped character (~x or @7, two regex
+    # groups renamed to ESC), a digit; keywords ('LTR','k') -> KEY, ('ESC','z') -> EZ, ('DIG','0') -> NIL.
+    # a = KEY, b = ESC (with the values 'k' and '0' of keywords declared for the kinds LTR / DIG),
+    # c = LTR (with the value 'z' of the keyword declared for the kind ESC).
+    'kwother2': {
+        'tokenizer': r'(?P<SPACE>\s+)|(?P<LOW>[a-z])|~(?P<TLD>[a-z])|@(?P<AT>[0-9])|(?P<DIG>[0-9])',
+        'kwargs': {'synonyms': {'LOW': 'LTR', 'TLD': 'ESC', 'AT': 'ESC'},
+                   'keywords': [['LTR', 'k', 'KEY'], ['ESC', 'z', 'EZ'], ['DIG', '0', 'NIL']]},
+        'terms': [('KEY', ['k']),
+                  ('ESC', [['~k', 'k'], ['~x', 'x'], ['@0', '0'], ['@7', '7']]),
+                  ('LTR', ['x', 'z', 'q'])],
+        'seps': [' ', '', '\n', '  ', '\t'],
+        'glue': True,
+        'kw': ['KEY', 'EZ', 'NIL'], 'syn': ['LTR', 'ESC'],
+        'kwother': True,
+    },
+    # the SAME value is a keyword of two token kinds, with different keyword tokens: ('LTR','k') -> KEY and
+    # ('ESC','k') -> EKEY; ('DIG','0') -> NIL while the ESC '@0' stays an ESC.  a = KEY, b = EKEY, c = ESC.
+    'kwother3': {
+        'tokenizer': r'(?P<SPACE>\s+)|(?P<LOW>[a-z])|~(?P<TLD>[a-z])|@(?P<AT>[0-9])|(?P<DIG>[0-9])',
+        'kwargs': {'synonyms': {'LOW': 'LTR', 'TLD': 'ESC', 'AT': 'ESC'},
+                   'keywords': [['LTR', 'k', 'KEY'], ['ESC', 'k', 'EKEY'], ['DIG', '0', 'NIL']]},
+        'terms': [('KEY', ['k']),
+                  ('EKEY', [['~k', 'k']]),
+                  ('ESC', [['~x', 'x'], ['@0', '0'], ['@7', '7']])],
+        'seps': [' ', '', '\n', '  ', '\t'],
+        'glue': True,
+        'kw': ['KEY', 'EKEY', 'NIL'], 'syn': ['LTR', 'ESC'],
+        'kwother': True,
+    },
 }
 LEX_ORDER = ['plain', 'kwsyn1', 'skipc', 'kwsyn2']      # assigned round-robin to the grammars of the plan
 KWONSYN_LEXICONS = ['kwonsyn1', 'kwonsyn2']             # assigned explicitly (family 'kwonsyn')
+KWOTHER_LEXICONS = ['kwother1', 'kwother2', 'kwother3']     # assigned explicitly (family 'kwother')
 
 NAMESETS = [
     ['E', 'X', 'Y', 'Z', 'S', 'Q'],
@@ -150,13 +201,14 @@ def make_text(toks, seps):
     return ''.join(out)
 
 
-def spec_tokens(lex, text):
+def spec_tokens_ex(lex, text):
     """Reference tokenizer written from the constructor's documentation (not from its code):
     the pattern is matched repeatedly; the token value is the text of the named group that matched;
     the token name is that group's name, replaced by its synonym if it has one
     (synonyms = {name_of_re_pattern: name_of_token}); a (token name, value) pair listed in `keywords`
     is reported as the token the entry names (keywords = {(token_name, value): token_name});
-    tokens named in skip_tokens (default SPACE, COMMENT) are dropped.  -> [(name, value)]"""
+    tokens named in skip_tokens (default SPACE, COMMENT) are dropped.
+    -> [(kind, name, value)], kind = the token name before the keyword table was applied"""
     L = LEXICONS[lex]
     kw = lexicon_kwargs(lex)
     syn = kw.get('synonyms', {})
@@ -173,11 +225,30 @@ def spec_tokens(lex, text):
                 raise ValueError(f"lexicon {lex!r}: no token at {pos} of line {line!r} of {text!r}")
             group = m.lastgroup
             value = m.group(group)
-            name = syn.get(group, group)
-            name = keywords.get((name, value), name)
+            kind = syn.get(group, group)
+            name = keywords.get((kind, value), kind)
             if name not in skip:
-                out.append((name, value))
+                out.append((kind, name, value))
             pos = m.end()
+    return out
+
+
+def spec_tokens(lex, text):
+    """the reference tokenizer: -> [(name, value)] of the non-skipped tokens"""
+    return [(name, value) for _, name, value in spec_tokens_ex(lex, text)]
+
+
+def other_kind_keyword_readings(lex, text):
+    """positions at which a non-skipped token of the text carries exactly the value of a keyword entry
+    declared for ANOTHER token kind: -> [(index, keyword token of that entry)].  By the documentation such
+    an entry does not apply (the key of an entry is (token name, value)): the token keeps the name the
+    reference tokenizer gives it."""
+    entries = LEXICONS[lex]['kwargs'].get('keywords', [])
+    out = []
+    for i, (kind, name, value) in enumerate(spec_tokens_ex(lex, text)):
+        for kn, kv, kt in entries:
+            if kv == value and kn != kind and kt != name:
+                out.append((i, kt))
     return out
 
 
@@ -468,5 +539,26 @@ def build_plan(tier, seed):
     for i in range(150 if quick else 3000):
         g = random_grammar(r4)
         plan.append(('kwonsyn',) + tuple(g[1:]) + (KWONSYN_LEXICONS[i % 2],))
+    # family 'kwother' (appended): the same once more under the tokenizer configurations in which a token of
+    # ANOTHER kind carries exactly a keyword's text; the keyword and the other kind are terminals of every grammar
+    r5 = random.Random(seed * 31337 + 29)
+
+    def take_ko(gen, frac):
+        for g in gen:
+            for lex in KWOTHER_LEXICONS:
+                if frac >= 1.0 or r5.random() < frac:
+                    plan.append(('kwother',) + tuple(g[1:]) + (lex,))
+
+    take_ko(fam_exh1(), 0.5 if quick else 1.0)
+    take_ko(fam_exh2(), 0.003 if quick else 0.05)
+    take_ko(fam_prefix((2,)), 0.03 if quick else 0.3)
+    take_ko(fam_prefix((3,)), 0.002 if quick else 0.05)
+    take_ko(fam_rollback(), 0.002 if quick else 0.05)
+    take_ko(fam_nested3(), 0.001 if quick else 0.02)
+    take_ko(fam_seq(), 0.003 if quick else 0.05)
+    r6 = random.Random(seed * 6007 + 41)
+    for i in range(90 if quick else 2000):
+        g = random_grammar(r6)
+        plan.append(('kwother',) + tuple(g[1:]) + (KWOTHER_LEXICONS[i % 3],))
     assert all(len(g) == 4 for g in plan[:n0])
     return plan
